@@ -680,7 +680,46 @@ func stackFmtFunc(name string, extra map[string]shim) transFunc {
 		}, extra)}
 }
 
+// ---- round 4, C06: the gRPC adapter's printers (zapgrpc/zapgrpc.go).  The delegate's methods (function values held by the
+// printer, methods of the sugared logger) are recorded; Enabled is a parameter; fmt.Sprintln a parameter.
+func grpcFunc(recv, name string, fields map[string]fieldSpec, extra map[string]shim) transFunc {
+	lean := name
+	if recv != "" {
+		lean = recv + "_" + name
+	}
+	return transFunc{file: "zapgrpc/zapgrpc.go", recv: recv, name: name, lean: lean,
+		fields: merge2(map[string]fieldSpec{"#ev": {"ev", "[]Event"}}, fields),
+		types:  map[string]string{"interface{}": "Any", "zapcore.Level": "i8"},
+		consts: map[string]string{"zapcore.DPanicLevel": "i8:3", "zapcore.InfoLevel": "i8:0", "zapcore.WarnLevel": "i8:1", "zapcore.ErrorLevel": "i8:2"},
+		calls: merge(map[string]shim{
+			"fmt.Sprintln":         {kind: "ext", f: "fmt.Sprintln", res: []string{"string"}},
+			"sprintln":             {kind: "funpure", f: "sprintln", res: []string{"string"}},
+			"LevelEnabler.Enabled": {kind: "ext", f: "LevelEnabler.Enabled", res: []string{"bool"}},
+		}, extra)}
+}
+
+var printerFields = map[string]fieldSpec{"enab": {"enab", "LevelEnabler"}, "level": {"level", "i8"}, "print": {"print", "PrintFn"}, "printf": {"printf", "PrintfFn"}}
+var printerCalls = map[string]shim{
+	"recv.print":  {kind: "extstmt", f: "PrintFn.call", with: []string{"print"}, trace: "#ev"},
+	"recv.printf": {kind: "extstmt", f: "PrintfFn.call", with: []string{"printf"}, trace: "#ev"},
+}
+var grpcLoggerFields = map[string]fieldSpec{"delegate": {"delegate", "Sugar"}, "levelEnabler": {"levelEnabler", "LevelEnabler"}}
+var grpcLoggerCalls = map[string]shim{
+	"Sugar.Info":  {kind: "extstmt", f: "Sugar.Info", trace: "#ev"},
+	"Sugar.Warn":  {kind: "extstmt", f: "Sugar.Warn", trace: "#ev"},
+	"Sugar.Error": {kind: "extstmt", f: "Sugar.Error", trace: "#ev"},
+}
+
 var transSpecs = []transSpec{
+	{table: "TransGrpc", funcs: []transFunc{
+		grpcFunc("", "sprintln", nil, nil),
+		grpcFunc("printer", "Print", printerFields, printerCalls),
+		grpcFunc("printer", "Printf", printerFields, printerCalls),
+		grpcFunc("printer", "Println", printerFields, printerCalls),
+		grpcFunc("Logger", "Infoln", grpcLoggerFields, grpcLoggerCalls),
+		grpcFunc("Logger", "Warningln", grpcLoggerFields, grpcLoggerCalls),
+		grpcFunc("Logger", "Errorln", grpcLoggerFields, grpcLoggerCalls),
+	}},
 	{table: "TransStackFmt", funcs: []transFunc{
 		stackFmtFunc("FormatFrame", nil),
 		stackFmtFunc("FormatStack", map[string]shim{"recv.FormatFrame": {kind: "fun", f: "FormatFrame"}}),
